@@ -1600,6 +1600,21 @@ class TypedDictValue(GenericValue):
             if not self.extra_keys_readonly and other.extra_keys_readonly:
                 return CanAssignError(f"Extra keys are readonly in {other}")
             if self.extra_keys is not None:
+                # Keys that only the other TypedDict declares are extra keys for us.
+                for key, their_entry in other.items.items():
+                    if key in self.items:
+                        continue
+                    if self.extra_keys is NO_RETURN_VALUE:
+                        return CanAssignError(
+                            f"Key {key!r} is not allowed in closed TypedDict {self}"
+                        )
+                    can_assign = self.extra_keys.can_assign(their_entry.typ, ctx)
+                    if isinstance(can_assign, CanAssignError):
+                        return CanAssignError(
+                            f"Type for extra key {key!r} is incompatible",
+                            children=[can_assign],
+                        )
+                    bounds_maps.append(can_assign)
                 their_extra_keys = other.extra_keys or TypedValue(object)
                 can_assign = self.extra_keys.can_assign(their_extra_keys, ctx)
                 if isinstance(can_assign, CanAssignError):
